@@ -1,7 +1,7 @@
 (* The lexer consumes its whole input (C01): with fuel exceeding the number of characters the result no longer depends on the
    fuel, i.e. the loop of the implementation ends within one step per character. *)
 From Coq Require Import List Bool NArith Arith Lia.
-From SliceV Require Import Cli.PluginSpec Doc.Comment Syntax.Tokens Syntax.Lexer.
+From SliceV Require Import Cli.PluginSpec Doc.Comment Doc.CommentProofs Syntax.Tokens Syntax.Lexer.
 Import ListNotations.
 Local Open Scope nat_scope.
 
@@ -84,4 +84,250 @@ Qed.
 Corollary lex_block_total fuel k attr cur s : length s < fuel -> lex_block (fuel + k) attr cur s = lex_block fuel attr cur s.
 Proof.
   intros H. induction k as [|k IH]; [rewrite Nat.add_0_r; reflexivity|]. rewrite Nat.add_succ_r, <- lex_block_fuel_independent by lia. exact IH.
+Qed.
+
+(* ------------------------------------------------------------------------------------------------ layout independence *)
+(* what the parser sees of a lexer result when locations are set aside: the token kinds, the kind of the first error, the flag *)
+Definition kinds_of (r : list ptok * option plexerr * bool) : list token * option lexerr * bool :=
+  (map (fun p : ptok => snd (fst p)) (fst (fst r)), option_map (fun e : plexerr => snd (fst e)) (snd (fst r)), snd r).
+Lemma kinds_cons l t e ts er a : kinds_of ((l, t, e) :: ts, er, a) = (t :: fst (fst (kinds_of (ts, er, a))), snd (fst (kinds_of (ts, er, a))), a).
+Proof. reflexivity. Qed.
+(* the token kinds do not depend on where the block starts *)
+Lemma lex_step_sim g1 g2 attr k1 k2 s : (forall a l1 l2 x, length x < length s -> kinds_of (g1 a l1 x) = kinds_of (g2 a l2 x)) ->
+  kinds_of (lex_step g1 attr k1 s) = kinds_of (lex_step g2 attr k2 s).
+Proof.
+  intros R. unfold lex_step. destruct s as [|c r]; [reflexivity|]. cbn [length] in R.
+  assert (R1 : forall a l1 l2 x, length x <= length r -> kinds_of (g1 a l1 x) = kinds_of (g2 a l2 x)) by (intros; apply R; lia).
+  assert (K : forall a l1 l2 x t p1 e1 p2 e2, length x <= length r ->
+            kinds_of (let '(ts, er, a') := g1 a l1 x in ((p1, t, e1) :: ts, er, a')) = kinds_of (let '(ts, er, a') := g2 a l2 x in ((p2, t, e2) :: ts, er, a'))).
+  { intros a l1 l2 x t p1 e1 p2 e2 Hx. specialize (R1 a l1 l2 x Hx). destruct (g1 a l1 x) as [[ts1 er1] a1]. destruct (g2 a l2 x) as [[ts2 er2] a2].
+    unfold kinds_of in *. cbn [fst snd map] in *. inversion R1. congruence. }
+  cbv zeta.
+  repeat match goal with |- kinds_of (if ?b then _ else _) = kinds_of (if ?b then _ else _) => destruct b eqn:? end; try (apply K; lia); try reflexivity.
+  - destruct r as [|c2 r2]; [reflexivity|]. destruct (c2 =? 91)%N; apply K; cbn [length]; lia.
+  - destruct r as [|c2 r2]; [reflexivity|]. destruct (c2 =? 93)%N; apply K; cbn [length]; lia.
+  - destruct r as [|c2 r2]; [reflexivity|]. destruct (c2 =? 58)%N; apply K; cbn [length]; lia.
+  - destruct r as [|c2 r2]; [reflexivity|]. destruct (c2 =? 62)%N; apply K; cbn [length]; lia.
+  - destruct (scan_string false r []) as [[content rest]|eaten] eqn:E; [|reflexivity]. apply scan_string_len in E. apply K. lia.
+  - destruct r as [|c2 r2]; [reflexivity|]. destruct (c2 =? 47)%N.
+    + assert (T : forall (after : list N) (isdoc : bool) (n1 n2 : loc), length after <= length r2 ->
+                kinds_of (let '(text, rest) := span_while (fun x => negb (x =? 10)%N) after in
+                          let '(ts, er, a) := g1 attr (adv_all n1 text) rest in
+                          if isdoc then ((n1, TkDoc match rev text with 13%N :: t => rev t | _ => text end, adv_all n1 text) :: ts, er, a) else (ts, er, a)) =
+                kinds_of (let '(text, rest) := span_while (fun x => negb (x =? 10)%N) after in
+                          let '(ts, er, a) := g2 attr (adv_all n2 text) rest in
+                          if isdoc then ((n2, TkDoc match rev text with 13%N :: t => rev t | _ => text end, adv_all n2 text) :: ts, er, a) else (ts, er, a))).
+      { intros after isdoc n1 n2 Ha. pose proof (span_while_len (fun x => negb (x =? 10)%N) after) as L.
+        destruct (span_while (fun x => negb (x =? 10)%N) after) as [text rest]. cbn [snd] in L. destruct isdoc; [apply K; cbn [length] in *; lia|].
+        assert (Hr : length rest <= length (c2 :: r2)) by (cbn [length] in *; lia). specialize (R1 attr (adv_all n1 text) (adv_all n2 text) rest Hr).
+        destruct (g1 attr (adv_all n1 text) rest) as [[? ?] ?]. destruct (g2 attr (adv_all n2 text) rest) as [[? ?] ?]. exact R1. }
+      destruct r2 as [|c3 r3]; [apply (T [] false); cbn; lia|].
+      destruct (c3 =? 47)%N; [|apply (T (c3 :: r3) false); cbn; lia].
+      destruct r3 as [|c4 r4]; [apply (T [] true); cbn; lia|]. destruct (c4 =? 47)%N; [apply (T (c4 :: r4) false)|apply (T (c4 :: r4) true)]; cbn; lia.
+    + destruct (c2 =? 42)%N; [|reflexivity]. destruct (scan_block false r2) as [rest|] eqn:E; [|reflexivity]. apply scan_block_len in E. apply R1. cbn [length]. lia.
+  - destruct r as [|c2 r2]; [reflexivity|]. destruct (is_letter c2) eqn:L; [|reflexivity].
+    pose proof (span_while_len is_alnum_ (c2 :: r2)) as Ls. destruct (span_while is_alnum_ (c2 :: r2)) as [w rest]. cbn [snd] in Ls. apply K. exact Ls.
+  - pose proof (span_while_len is_alnum_ (c :: r)) as Ls. destruct (span_while is_alnum_ (c :: r)) as [w rest] eqn:E. cbn [snd] in Ls.
+    assert (length rest <= length r).
+    { cbn [span_while] in E. destruct (is_alnum_ c) eqn:A.
+      - pose proof (span_while_len is_alnum_ r) as L2. destruct (span_while is_alnum_ r) as [w2 rest2]. inversion E; subst. exact L2.
+      - exfalso. unfold is_alnum_ in A. rewrite orb_false_iff in A. destruct A as [A _]. rewrite orb_false_iff in A. destruct A as [A _].
+        match goal with H : is_letter c = true |- _ => rewrite H in A end. discriminate A. }
+    apply K. assumption.
+  - pose proof (span_while_len is_alnum_ (c :: r)) as Ls. destruct (span_while is_alnum_ (c :: r)) as [w rest] eqn:E. cbn [snd] in Ls.
+    assert (length rest <= length r).
+    { cbn [span_while] in E. destruct (is_alnum_ c) eqn:A.
+      - pose proof (span_while_len is_alnum_ r) as L2. destruct (span_while is_alnum_ r) as [w2 rest2]. inversion E; subst. exact L2.
+      - exfalso. unfold is_alnum_ in A. rewrite !orb_false_iff in A. destruct A as [[_ A] _].
+        match goal with H : is_digit c = true |- _ => unfold is_digit in H; rewrite H in A end. discriminate A. }
+    apply K. assumption.
+  - apply R1. lia.
+Qed.
+Theorem token_kinds_independent_of_start : forall fuel attr c1 c2 s, kinds_of (lex_block fuel attr c1 s) = kinds_of (lex_block fuel attr c2 s).
+Proof.
+  induction fuel as [|f IH]; intros attr c1 c2 s; [reflexivity|].
+  change (lex_block (S f) attr c1 s) with (lex_step (lex_block f) attr c1 s). change (lex_block (S f) attr c2 s) with (lex_step (lex_block f) attr c2 s).
+  apply lex_step_sim. intros a l1 l2 x _. apply IH.
+Qed.
+
+(* white space and ordinary comments between tokens *)
+Definition no_nl (s : list N) : bool := forallb (fun c => negb (c =? 10)%N) s.
+Inductive blank : list N -> Prop :=
+| bl_nil : blank []
+| bl_ws c b : is_ws c = true -> blank b -> blank (c :: b)
+| bl_line text b : no_nl text = true -> (match text with 47%N :: _ => False | _ => True end) -> blank (10%N :: b) ->
+    blank (47%N :: 47%N :: text ++ 10%N :: b)                                   (* // text, up to the end of the line *)
+| bl_line4 text b : no_nl text = true -> blank (10%N :: b) -> blank (47%N :: 47%N :: 47%N :: 47%N :: text ++ 10%N :: b)   (* four or more slashes *)
+| bl_block body b : (forall rest, scan_block false (body ++ 42%N :: 47%N :: rest) = Some rest) -> blank b ->
+    blank (47%N :: 42%N :: body ++ 42%N :: 47%N :: b).                          (* /* body */ *)
+Lemma ws_chars c : is_ws c = true -> (c =? 40)%N = false /\ (c =? 41)%N = false /\ (c =? 91)%N = false /\ (c =? 93)%N = false /\ (c =? 123)%N = false /\ (c =? 125)%N = false /\
+  (c =? 60)%N = false /\ (c =? 62)%N = false /\ (c =? 44)%N = false /\ (c =? 58)%N = false /\ (c =? 61)%N = false /\ (c =? 63)%N = false /\ (c =? 45)%N = false /\
+  (c =? 34)%N = false /\ (c =? 47)%N = false /\ (c =? 92)%N = false /\ is_letter c = false /\ is_digit c = false.
+Proof.
+  intros H. unfold is_ws in H. rewrite !orb_true_iff, !andb_true_iff, !N.leb_le, !N.eqb_eq in H.
+  repeat split; try (apply N.eqb_neq; lia).
+  - unfold is_letter. apply orb_false_iff. split; apply andb_false_iff; rewrite !N.leb_gt; lia.
+  - unfold is_digit. apply andb_false_iff. rewrite !N.leb_gt. lia.
+Qed.
+Lemma span_line text b : no_nl text = true -> span_while (fun x => negb (x =? 10)%N) (text ++ 10%N :: b) = (text, 10%N :: b).
+Proof.
+  intros H. induction text as [|c t IH]; [reflexivity|]. cbn [app span_while]. unfold no_nl in H. cbn [forallb] in H. apply andb_true_iff in H as [Hc Ht].
+  rewrite Hc. rewrite (IH Ht). reflexivity.
+Qed.
+Lemma kinds_let (g : bool -> loc -> list N -> list ptok * option plexerr * bool) a l x : kinds_of (let '(ts, er, a') := g a l x in (ts, er, a')) = kinds_of (g a l x).
+Proof. destruct (g a l x) as [[? ?] ?]. reflexivity. Qed.
+(* blanks in front of the input change no token kind *)
+Theorem blank_skipped b : blank b -> forall fuel attr cur s, length (b ++ s) < fuel -> exists cur', kinds_of (lex_block fuel attr cur (b ++ s)) = kinds_of (lex_block fuel attr cur' s).
+Proof.
+  induction 1 as [|c b Hc _ IH|text b Ht Hs _ IH|text b Ht _ IH|body b Hb _ IH]; intros fuel attr cur s Hf.
+  - exists cur. reflexivity.
+  - destruct fuel as [|f]; [lia|]. cbn [app length] in *. destruct (ws_chars c Hc) as (A1 & A2 & A3 & A4 & A5 & A6 & A7 & A8 & A9 & A10 & A11 & A12 & A13 & A14 & A15 & A16 & A17 & A18).
+    destruct (IH f attr (adv cur c) s ltac:(lia)) as (cur' & E). exists cur'.
+    change (lex_block (S f) attr cur (c :: b ++ s)) with (lex_step (lex_block f) attr cur (c :: b ++ s)). unfold lex_step.
+    rewrite A1, A2, A3, A4, A5, A6, A7, A8, A9, A10, A11, A12, A13, A14, A15, A16, A17, A18, Hc. rewrite E.
+    rewrite (lex_block_fuel_independent f attr cur' s) by (rewrite app_length in Hf; lia). reflexivity.
+  - destruct fuel as [|f]; [lia|]. cbn [app length] in Hf. repeat (rewrite app_length in Hf; cbn [length] in Hf).
+    destruct (IH f attr (adv_all (mkloc (l_row cur) (l_col cur + 2)) text) s ltac:(cbn [app length]; rewrite app_length; lia)) as (cur' & E). exists cur'.
+    cbn [app]. rewrite <- app_assoc. cbn [app].
+    change (lex_block (S f) attr cur (47%N :: 47%N :: text ++ 10%N :: b ++ s)) with (lex_step (lex_block f) attr cur (47%N :: 47%N :: text ++ 10%N :: b ++ s)).
+    unfold lex_step. cbn [N.eqb Pos.eqb].
+    assert (X : match text ++ 10%N :: b ++ s with
+                | c3 :: r3 => if (c3 =? 47)%N then match r3 with c4 :: _ => if (c4 =? 47)%N then (3, false, r3) else (3, true, r3) | [] => (3, true, r3) end else (2, false, text ++ 10%N :: b ++ s)
+                | [] => (2, false, text ++ 10%N :: b ++ s) end = (2, false, text ++ 10%N :: b ++ s)).
+    { destruct text as [|c3 t3]; [reflexivity|]. cbn [app]. destruct (N.eqb_spec c3 47) as [->|]; [contradiction|reflexivity]. }
+    rewrite X. rewrite span_line by exact Ht. rewrite kinds_let. cbn [app] in E. rewrite E.
+    rewrite (lex_block_fuel_independent f attr cur' s) by lia. reflexivity.
+  - destruct fuel as [|f]; [lia|]. cbn [app length] in Hf. repeat (rewrite app_length in Hf; cbn [length] in Hf).
+    destruct (IH f attr (adv_all (mkloc (l_row cur) (l_col cur + 3)) (47%N :: text)) s ltac:(cbn [app length]; rewrite app_length; lia)) as (cur' & E). exists cur'.
+    cbn [app]. rewrite <- app_assoc. cbn [app].
+    change (lex_block (S f) attr cur (47%N :: 47%N :: 47%N :: 47%N :: text ++ 10%N :: b ++ s)) with (lex_step (lex_block f) attr cur (47%N :: 47%N :: 47%N :: 47%N :: text ++ 10%N :: b ++ s)).
+    unfold lex_step. cbn [N.eqb Pos.eqb].
+    change (47%N :: text ++ 10%N :: b ++ s) with ((47%N :: text) ++ 10%N :: b ++ s). rewrite span_line by (unfold no_nl in *; cbn [forallb]; rewrite Ht; reflexivity).
+    rewrite kinds_let. cbn [app] in E. rewrite E. rewrite (lex_block_fuel_independent f attr cur' s) by lia. reflexivity.
+  - destruct fuel as [|f]; [lia|]. cbn [app length] in Hf. repeat (rewrite app_length in Hf; cbn [length] in Hf).
+    cbn [app]. rewrite <- app_assoc. cbn [app].
+    destruct (IH f attr (adv_all cur (consumed (47%N :: 42%N :: body ++ 42%N :: 47%N :: b ++ s) (b ++ s))) s ltac:(rewrite app_length; lia)) as (cur' & E). exists cur'.
+    change (lex_block (S f) attr cur (47%N :: 42%N :: body ++ 42%N :: 47%N :: b ++ s)) with (lex_step (lex_block f) attr cur (47%N :: 42%N :: body ++ 42%N :: 47%N :: b ++ s)).
+    unfold lex_step. cbn [N.eqb Pos.eqb]. rewrite Hb. rewrite E. rewrite (lex_block_fuel_independent f attr cur' s) by lia. reflexivity.
+Qed.
+
+(* ------------------------------------------------------------------------------------------------ how each token is spelled *)
+Definition starts_with (c : N) (s : list N) : bool := match s with d :: _ => (d =? c)%N | [] => false end.
+Definition starts_alnum (s : list N) : bool := match s with d :: _ => is_alnum_ d | [] => false end.
+Definition word_ok (w : list N) : Prop := match w with c :: r => is_letter c = true /\ forallb is_alnum_ r = true | [] => False end.
+Definition number_ok (w : list N) : Prop := match w with c :: r => is_digit c = true /\ forallb is_alnum_ r = true | [] => False end.
+(* spelled attr t w attr' s: in attribute mode attr, the characters w followed by s are the token t, leaving mode attr' *)
+Inductive spelled : bool -> token -> list N -> bool -> list N -> Prop :=
+| sp_lparen a s : spelled a TkLParen [40%N] a s | sp_rparen a s : spelled a TkRParen [41%N] a s
+| sp_lbrace a s : spelled a TkLBrace [123%N] a s | sp_rbrace a s : spelled a TkRBrace [125%N] a s
+| sp_lt a s : spelled a TkLt [60%N] a s | sp_gt a s : spelled a TkGt [62%N] a s
+| sp_comma a s : spelled a TkComma [44%N] a s | sp_eq a s : spelled a TkEq [61%N] a s | sp_question a s : spelled a TkQuestion [63%N] a s
+| sp_lbracket a s : starts_with 91 s = false -> spelled a TkLBracket [91%N] true s
+| sp_dlbracket a s : spelled a TkDLBracket [91%N; 91%N] true s
+| sp_rbracket a s : starts_with 93 s = false -> spelled a TkRBracket [93%N] false s
+| sp_drbracket a s : spelled a TkDRBracket [93%N; 93%N] false s
+| sp_colon a s : starts_with 58 s = false -> spelled a TkColon [58%N] a s
+| sp_dcolon a s : spelled a TkDColon [58%N; 58%N] a s
+| sp_minus a s : starts_with 62 s = false -> spelled a TkMinus [45%N] a s
+| sp_arrow a s : spelled a TkArrow [45%N; 62%N] a s
+| sp_word a w s : word_ok w -> starts_alnum s = false -> spelled a (word_token a w) w a s
+| sp_escaped a w s : word_ok w -> starts_alnum s = false -> spelled a (TkIdent w) (92%N :: w) a s
+| sp_number a w s : number_ok w -> starts_alnum s = false -> spelled a (TkInt w) w a s
+| sp_string a raw s : scan_string false (raw ++ 34%N :: s) [] = inl (raw, s) -> spelled a (TkStr raw) (34%N :: raw ++ [34%N]) a s
+| sp_doc a text s : no_nl text = true -> (match text with 47%N :: _ => False | _ => True end) -> (match s with [] => True | c :: _ => c = 10%N end) ->
+    spelled a (TkDoc (match rev text with 13%N :: t => rev t | _ => text end)) (47%N :: 47%N :: 47%N :: text) a s.
+
+Lemma word_span w s : (match w with c :: r => forallb is_alnum_ (c :: r) = true | [] => False end) -> starts_alnum s = false -> span_while is_alnum_ (w ++ s) = (w, s).
+Proof.
+  intros Hw Hs. destruct w as [|c r]; [contradiction|]. apply span_while_app; [exact Hw|]. destruct s as [|d s']; [exact I|exact Hs].
+Qed.
+Lemma letter_chars c : is_letter c = true -> (c =? 40)%N = false /\ (c =? 41)%N = false /\ (c =? 91)%N = false /\ (c =? 93)%N = false /\ (c =? 123)%N = false /\ (c =? 125)%N = false /\
+  (c =? 60)%N = false /\ (c =? 62)%N = false /\ (c =? 44)%N = false /\ (c =? 58)%N = false /\ (c =? 61)%N = false /\ (c =? 63)%N = false /\ (c =? 45)%N = false /\
+  (c =? 34)%N = false /\ (c =? 47)%N = false /\ (c =? 92)%N = false /\ is_alnum_ c = true.
+Proof.
+  intros H. unfold is_letter in H. rewrite orb_true_iff, !andb_true_iff, !N.leb_le in H.
+  repeat split; try (apply N.eqb_neq; lia). unfold is_alnum_, is_letter.
+  destruct H as [[H1 H2]|[H1 H2]]; apply N.leb_le in H1, H2; rewrite H1, H2; cbn; rewrite ?orb_true_r; reflexivity.
+Qed.
+Lemma digit_chars c : is_digit c = true -> (c =? 40)%N = false /\ (c =? 41)%N = false /\ (c =? 91)%N = false /\ (c =? 93)%N = false /\ (c =? 123)%N = false /\ (c =? 125)%N = false /\
+  (c =? 60)%N = false /\ (c =? 62)%N = false /\ (c =? 44)%N = false /\ (c =? 58)%N = false /\ (c =? 61)%N = false /\ (c =? 63)%N = false /\ (c =? 45)%N = false /\
+  (c =? 34)%N = false /\ (c =? 47)%N = false /\ (c =? 92)%N = false /\ is_letter c = false /\ is_alnum_ c = true.
+Proof.
+  intros H. unfold is_digit in H. rewrite andb_true_iff, !N.leb_le in H.
+  repeat split; try (apply N.eqb_neq; lia).
+  - unfold is_letter. apply orb_false_iff. split; apply andb_false_iff; rewrite !N.leb_gt; lia.
+  - unfold is_alnum_. destruct H as [H1 H2]. apply N.leb_le in H1, H2. rewrite H1, H2. cbn. rewrite orb_true_r. reflexivity.
+Qed.
+
+(* the characters of a token are lexed as that token, and the rest is lexed on its own *)
+Definition cons_kind (t : token) (k : list token * option lexerr * bool) : list token * option lexerr * bool := (t :: fst (fst k), snd (fst k), snd k).
+Theorem token_lexed a t w a' s : spelled a t w a' s -> forall f cur,
+  exists cur', kinds_of (lex_block (S f) a cur (w ++ s)) = cons_kind t (kinds_of (lex_block f a' cur' s)).
+Proof.
+  assert (G : forall f (x : list N) l t0 p e a0,
+            kinds_of (let '(ts, er, a1) := lex_block f a0 l x in ((p, t0, e) :: ts, er, a1)) = cons_kind t0 (kinds_of (lex_block f a0 l x))).
+  { intros f x l t0 p e a0. destruct (lex_block f a0 l x) as [[ts er] a1]. reflexivity. }
+  destruct 1; intros f cur; cbn [app]; cbn [lex_block]; unfold lex_step; cbn [N.eqb Pos.eqb].
+  all: try (eexists; apply G).
+  - (* [ *) destruct s as [|d s']; [exists cur; destruct f; reflexivity|]. cbn [starts_with] in H. rewrite H. eexists. apply G.
+  - (* ] *) destruct s as [|d s']; [exists cur; destruct f; reflexivity|]. cbn [starts_with] in H. rewrite H. eexists. apply G.
+  - (* : *) destruct s as [|d s']; [exists cur; destruct f; reflexivity|]. cbn [starts_with] in H. rewrite H. eexists. apply G.
+  - (* - *) destruct s as [|d s']; [exists cur; destruct f; reflexivity|]. cbn [starts_with] in H. rewrite H. eexists. apply G.
+  - (* word *)
+    destruct w as [|c r]; [contradiction|]. destruct H as [Hc Hr]. destruct (letter_chars c Hc) as (A1 & A2 & A3 & A4 & A5 & A6 & A7 & A8 & A9 & A10 & A11 & A12 & A13 & A14 & A15 & A16 & A17).
+    cbn [app]. rewrite A1, A2, A3, A4, A5, A6, A7, A8, A9, A10, A11, A12, A13, A14, A15, A16, Hc.
+    change (c :: r ++ s) with ((c :: r) ++ s). rewrite word_span; [|cbn [forallb]; rewrite A17, Hr; reflexivity|exact H0].
+    eexists. apply G.
+  - (* escaped identifier *)
+    destruct w as [|c r]; [contradiction|]. destruct H as [Hc Hr]. destruct (letter_chars c Hc) as (A1 & A2 & A3 & A4 & A5 & A6 & A7 & A8 & A9 & A10 & A11 & A12 & A13 & A14 & A15 & A16 & A17).
+    cbn [app]. rewrite Hc. change (c :: r ++ s) with ((c :: r) ++ s). rewrite word_span; [|cbn [forallb]; rewrite A17, Hr; reflexivity|exact H0].
+    eexists. apply G.
+  - (* number *)
+    destruct w as [|c r]; [contradiction|]. destruct H as [Hc Hr]. destruct (digit_chars c Hc) as (A1 & A2 & A3 & A4 & A5 & A6 & A7 & A8 & A9 & A10 & A11 & A12 & A13 & A14 & A15 & A16 & A17 & A18).
+    cbn [app]. rewrite A1, A2, A3, A4, A5, A6, A7, A8, A9, A10, A11, A12, A13, A14, A15, A16, A17, Hc.
+    change (c :: r ++ s) with ((c :: r) ++ s). rewrite word_span; [|cbn [forallb]; rewrite A18, Hr; reflexivity|exact H0].
+    eexists. apply G.
+  - (* string *)
+    rewrite <- app_assoc. cbn [app]. rewrite H. eexists. apply G.
+  - (* doc comment *)
+    assert (X : match text ++ s with c4 :: _ => if (c4 =? 47)%N then (3, false, text ++ s) else (3, true, text ++ s) | [] => (3, true, text ++ s) end = (3, true, text ++ s)).
+    { destruct text as [|c3 t3]; cbn [app]; [destruct s as [|c4 s']; [reflexivity|subst c4; reflexivity]|]. destruct (N.eqb_spec c3 47) as [->|]; [contradiction|reflexivity]. }
+    rewrite X.
+    assert (Sp : span_while (fun x => negb (x =? 10)%N) (text ++ s) = (text, s)).
+    { apply span_while_app; [exact H|]. destruct s as [|c4 s']; [exact I|subst c4; reflexivity]. }
+    rewrite Sp. eexists. apply G.
+Qed.
+
+(* ------------------------------------------------------------------------------------------------ any layout gives the same tokens *)
+(* a text made of tokens with blanks (white space, line breaks, CRLF, ordinary comments) before, between and after them; the premises
+   of `spelled` say where a separator is needed (between two words, before a second bracket, colon or `>`, after a doc comment) *)
+Inductive rendered : bool -> list token -> list N -> bool -> Prop :=
+| rd_end a b : blank b -> rendered a [] b a
+| rd_tok a t w a1 ts rest a2 b : blank b -> spelled a t w a1 rest -> rendered a1 ts rest a2 -> rendered a (t :: ts) (b ++ w ++ rest) a2.
+Lemma spelled_nonempty a t w a' s : spelled a t w a' s -> 1 <= length w.
+Proof. destruct 1; cbn [length]; try lia; try (destruct w; [contradiction|cbn; lia]). Qed.
+Theorem layout_independent a ts text a' : rendered a ts text a' -> forall fuel cur, length text < fuel ->
+  kinds_of (lex_block fuel a cur text) = (ts, None, a').
+Proof.
+  induction 1 as [a b Hb|a t w a1 ts rest a2 b Hb Hs _ IH]; intros fuel cur Hf.
+  - destruct (blank_skipped b Hb fuel a cur [] ltac:(rewrite app_nil_r; exact Hf)) as (cur' & E). rewrite app_nil_r in E. rewrite E.
+    destruct fuel; reflexivity.
+  - destruct (blank_skipped b Hb fuel a cur (w ++ rest) Hf) as (cur' & E). rewrite E.
+    pose proof (spelled_nonempty _ _ _ _ _ Hs) as Hw. rewrite !app_length in Hf.
+    destruct fuel as [|f]; [lia|]. destruct (token_lexed a t w a1 rest Hs f cur') as (cur'' & T). rewrite T.
+    rewrite (IH f cur'' ltac:(lia)). reflexivity.
+Qed.
+(* hence two layouts of the same token sequence are lexed to the same tokens *)
+Corollary same_tokens_any_layout a ts t1 t2 a1 a2 c1 c2 : rendered a ts t1 a1 -> rendered a ts t2 a2 ->
+  fst (fst (kinds_of (lex_block (S (length t1)) a c1 t1))) = fst (fst (kinds_of (lex_block (S (length t2)) a c2 t2))).
+Proof. intros H1 H2. rewrite (layout_independent _ _ _ _ H1), (layout_independent _ _ _ _ H2) by lia. reflexivity. Qed.
+
+(* non-vacuity: ` struct/**/S` is a rendering of the two tokens struct, S *)
+Example ex_rendered : rendered false [TkKw KwStruct; TkIdent [83%N]] ([32%N] ++ [115; 116; 114; 117; 99; 116]%N ++ ([47; 42; 42; 47]%N ++ [83%N] ++ [])) false.
+Proof.
+  refine (rd_tok false (word_token false [115; 116; 114; 117; 99; 116]%N) _ false _ _ false [32%N] (bl_ws 32%N [] eq_refl bl_nil) _ _).
+  - apply sp_word; [split; reflexivity|reflexivity].
+  - refine (rd_tok false (word_token false [83%N]) [83%N] false [] [] false [47; 42; 42; 47]%N _ _ (rd_end false [] bl_nil)).
+    + exact (bl_block [] [] (fun rest => eq_refl) bl_nil).
+    + apply sp_word; [split; reflexivity|reflexivity].
 Qed.
